@@ -210,7 +210,7 @@ def shards(tier, seed):
     out = []
     ns = NSHARDS[tier]
     for i in range(ns):
-        out.append({"part": "A", "index": i, "of": ns, "random": 700 if tier == "quick" else 30000,
+        out.append({"part": "A", "index": i, "of": ns, "random": 700 if tier == "quick" else 12000,
                     "pairs": tier == "thorough", "watchdog_s": TIMEOUT[tier] - 30})
     out[0]["part"] = "AB"
     return out
@@ -395,9 +395,9 @@ def finalize(tier, merged):
         "rule": RULE,
         "exhaustive": False,
         "floors": [
-            ("scripted scenarios executed on the real scheduler", c.get("scenarios", 0), 15000 if tier == "quick" else 500000),
-            ("backup tasks launched by the scheduler", c.get("backups_launched", 0), 3000 if tier == "quick" else 100000),
-            ("original and backup completing at the same virtual instant", c.get("simultaneous_completions", 0), 500 if tier == "quick" else 20000),
+            ("scripted scenarios executed on the real scheduler", c.get("scenarios", 0), 15000 if tier == "quick" else 380000),
+            ("backup tasks launched by the scheduler", c.get("backups_launched", 0), 3000 if tier == "quick" else 80000),
+            ("original and backup completing at the same virtual instant", c.get("simultaneous_completions", 0), 500 if tier == "quick" else 15000),
             ("retry-wrapper and end-to-end fault cases", c.get("retry_wrapper_cases", 0) + c.get("end_to_end_fault_cases", 0), 24, ),
         ],
         "assumptions": ASSUMPTIONS,
